@@ -642,8 +642,13 @@ func rulePersistIntroducerCarry(r *Report, in introducers, rule string) {
 			return true
 		}
 		li, ok1 := ast.Unparen(as.Lhs[0]).(*ast.IndexExpr)
-		ri, ok2 := ast.Unparen(as.Rhs[0]).(*ast.IndexExpr)
-		if ok1 && ok2 && isField(info, li.X, "IndexSnapshot", "segment") && isField(info, ri.X, "IndexSnapshot", "segment") && exprStr(li.Index) == exprStr(ri.Index) {
+		if !ok1 || !isField(info, li.X, "IndexSnapshot", "segment") {
+			return true
+		}
+		// the right-hand side is the old root's element at the same index: root.segment[i], or the
+		// value variable of `for i, v := range root.segment`
+		coll, key, ok2 := elemOfCollection(info, fi.Decl.Body, as.Rhs[0])
+		if ok2 && isField(info, coll, "IndexSnapshot", "segment") && key != nil && exprStr(li.Index) == exprStr(key) && exprStr(ast.Unparen(li.X)) != exprStr(ast.Unparen(coll)) {
 			okCarry = true
 		}
 		return true
@@ -890,4 +895,28 @@ func ruleFlushableAlignment(r *Report, rule string) {
 		r.Ob(rule, mf.Name+"/mergeBatch-from-one-flushable", cl.Pos(), ok2 && len(want) == 0, "mergeBatch{snapshots, segments, drops} are the three aligned lists of ONE flushable")
 		return true
 	})
+}
+
+
+// elemOfCollection: e denotes "the element of collection C at index K" - spelled
+// C[K], or as the value variable of a `for K, v := range C` loop enclosing it.
+func elemOfCollection(info *types.Info, body ast.Node, e ast.Expr) (coll ast.Expr, key ast.Expr, ok bool) {
+	e = ast.Unparen(e)
+	if ix, isIx := e.(*ast.IndexExpr); isIx {
+		return ix.X, ix.Index, true
+	}
+	id, isId := e.(*ast.Ident)
+	if !isId {
+		return nil, nil, false
+	}
+	o := info.ObjectOf(id)
+	ast.Inspect(body, func(n ast.Node) bool {
+		if rs, isR := n.(*ast.RangeStmt); isR && rs.Value != nil {
+			if vid, isV := rs.Value.(*ast.Ident); isV && info.ObjectOf(vid) == o && o != nil {
+				coll, key, ok = rs.X, rs.Key, true
+			}
+		}
+		return true
+	})
+	return
 }
